@@ -33,6 +33,7 @@
 #include <string.h>
 #include <sys/personality.h>
 #include <sys/ptrace.h>
+#include <sys/resource.h>
 #include <sys/syscall.h>
 #include <sys/types.h>
 #include <sys/uio.h>
@@ -52,7 +53,8 @@ static int nfaults;
 static uint64_t hash_seed = 1, dirent_seed = 1;
 static long env_pad = 0;
 static long max_calls = 20000;
-static long timeout_ms = 20000;
+static long timeout_ms = 60000;   /* wall-clock backstop only: no check decides anything by it */
+static long cpu_ms = 0;           /* CPU-time bound of the tracee (RLIMIT_CPU): independent of the load of the machine */
 static FILE *lgf;
 static pid_t child;
 static char cwd[4096];
@@ -66,6 +68,11 @@ static void die(const char *fmt, ...) {
     fprintf(stderr, "simkernel: "); vfprintf(stderr, fmt, ap); fprintf(stderr, "\n");
     va_end(ap);
     if (child > 0) kill(child, SIGKILL);
+    if (timed_out) {
+        /* the backstop fired between a stop and the next ptrace request: the tracee is gone, not the supervisor broken */
+        if (lgf) { fprintf(lgf, "exit bound=time\n"); fclose(lgf); }
+        exit(4);
+    }
     if (lgf) { fprintf(lgf, "supervisor-error\n"); fclose(lgf); }
     exit(2);
 }
@@ -333,6 +340,7 @@ int main(int argc, char **argv) {
         else if (!strcmp(argv[i], "--cwd")) snprintf(cwd, sizeof cwd, "%s", argv[++i]);
         else if (!strcmp(argv[i], "--max-calls")) max_calls = atol(argv[++i]);
         else if (!strcmp(argv[i], "--timeout-ms")) timeout_ms = atol(argv[++i]);
+        else if (!strcmp(argv[i], "--cpu-ms")) cpu_ms = atol(argv[++i]);
         else if (!strcmp(argv[i], "--env")) { if (nextra < 60) extra_env[nextra++] = argv[++i]; }
         else die("unknown option %s", argv[i]);
     }
@@ -347,6 +355,12 @@ int main(int argc, char **argv) {
     if (child < 0) die("fork");
     if (child == 0) {
         personality(ADDR_NO_RANDOMIZE);
+        if (cpu_ms > 0) {
+            struct rlimit rl;
+            rl.rlim_cur = (rlim_t)((cpu_ms + 999) / 1000);
+            rl.rlim_max = rl.rlim_cur + 1;
+            setrlimit(RLIMIT_CPU, &rl);
+        }
         if (chdir(cwd) < 0) _exit(126);
         int fd = open("/dev/null", O_RDONLY); dup2(fd, 0); close(fd);
         fd = open(outp, O_WRONLY | O_CREAT | O_TRUNC, 0644); if (fd < 0) _exit(126); dup2(fd, 1); close(fd);
@@ -398,6 +412,7 @@ int main(int argc, char **argv) {
         if (WIFEXITED(status)) { fprintf(lgf, "exit status=%d\n", WEXITSTATUS(status)); break; }
         if (WIFSIGNALED(status)) {
             if (timed_out) { fprintf(lgf, "exit bound=time\n"); bound_hit = 1; }
+            else if (cpu_ms > 0 && !killed_by_plan && (WTERMSIG(status) == SIGXCPU || WTERMSIG(status) == SIGKILL)) { fprintf(lgf, "exit bound=cpu\n"); bound_hit = 1; }
             else fprintf(lgf, "exit signal=%d\n", WTERMSIG(status));
             break;
         }
